@@ -54,3 +54,10 @@ fn shim_slice_range(s: &[u8], a: usize, b: usize) -> (r: &[u8])
     requires a <= b <= s@.len(),
     ensures r@ == s@.subrange(a as int, b as int),
 { &s[a..b] }
+
+/// `u16::from_be_bytes(buf.try_into().unwrap())` on a 2-byte slice
+#[verifier::external_body]
+fn shim_u16_from_be(buf: &[u8]) -> (r: u16)
+    requires buf@.len() == 2,
+    ensures r == (buf@[0] as u16 * 256 + buf@[1] as u16) as u16,
+{ u16::from_be_bytes(buf.try_into().unwrap()) }
